@@ -1,6 +1,9 @@
 package drivers
 
 import (
+	"encoding/json"
+	"os"
+	"path/filepath"
 	"sync"
 	"testing"
 	"time"
@@ -362,6 +365,7 @@ func TestC11Sessions(t *testing.T) {
 	type out struct {
 		events []trace.Event
 		desc   map[string]any
+		link   []trace.Event
 	}
 	var mu sync.Mutex
 	var outs []out
@@ -390,15 +394,31 @@ func TestC11Sessions(t *testing.T) {
 				}
 				ev := append([]trace.Event{{"ev": "reset", "scen": sc.name,
 					"prepaired": b2i(sc.opts.PrePaired), "v1": b2i(sc.opts.V1 || sc.opts.SrvV1)}}, s.Rec.Events()...)
+				link := append([]trace.Event{{"ev": "reset", "op": "reset", "scen": sc.name, "rep": rep}},
+					s.LinkEvents()...)
 				mu.Lock()
-				outs = append(outs, out{ev, map[string]any{"scen": sc.name, "rep": rep}})
+				outs = append(outs, out{ev, map[string]any{"scen": sc.name, "rep": rep}, link})
 				mu.Unlock()
 			}()
 		}
 	}
 	wg.Wait()
+	// the packets every handed-out connection's GBN gave to / got from the
+	// mailbox transport, by stream (validated against MailboxLink.tla)
+	lf, err := os.Create(filepath.Join(dir, "c11link.ndjson"))
+	if err != nil {
+		t.Fatal(err)
+	}
+	lenc := json.NewEncoder(lf)
 	for _, o := range outs {
 		ts.add("all", o.events, o.desc, true, nil)
+		for _, e := range o.link {
+			if _, ok := e["op"]; !ok {
+				e["op"] = e["ev"]
+			}
+			lenc.Encode(e)
+		}
 	}
+	lf.Close()
 	ts.close(nil)
 }
